@@ -1,5 +1,6 @@
 // govc:pkg .
 // govc:bound INNER and LEFT JOIN x 3 ON operands that are paths into the stream row (dev.id, s.dev.info.id, dev.id with stream alias) x 5 container shapes for the nested levels (map[string]any, map[string]string, map[string]int, pointer to map, struct) x a matching and a non-matching key
+// govc:also C20
 // Bounded stand-in (NOT a proof) for the stream-side key lookup (streamFieldValue -> fieldpath, reflection): a row whose ON
 // path resolves to a key of the table is enriched whatever Go type the nested containers have; one that does not is dropped
 // by INNER JOIN and kept with NULL table columns by LEFT JOIN.
